@@ -384,6 +384,12 @@ impl RecordBatchDecoder<'_> {
         let skip_validation = self.skip_validation.get();
 
         let nulls = if null_count > 0 {
+            if null_buffer.len() < len.div_ceil(8) {
+                return Err(ArrowError::IpcError(format!(
+                    "Struct validity buffer of {} bytes is too small for {len} rows",
+                    null_buffer.len()
+                )));
+            }
             let validity_buffer = BooleanBuffer::new(null_buffer, 0, len);
             let null_buffer = if skip_validation {
                 // safety: flag can only be set via unsafe code
